@@ -1,29 +1,32 @@
-"""C05 generator: Generated/Sb31Consts.lean from the CURRENT SB3.1 sources (pure `ast` reading).
+"""C05 generator: Generated/Sb31Consts.lean from the CURRENT SB3.1 sources (pure `ast` reading, never imports spsdk).
 
-Emits plain `def`s (namespace SpsdkVerif.Generated.Sb31Consts):
-  * the EnumCmdTag members (14 commands + NONE), BaseCmd.TAG, TAG_TO_CLASS coverage, CFG_NAME_TO_CLASS (YAML name -> class -> tag)
-    and the configuration keys every class reads in load_from_config,
-  * every struct format the export path packs with (as lists of field widths, little-endian flag),
-    HEADER magic / version / description length / sizes, DATA_CHUNK_LENGTH, alignment constants of the
-    command exports, the hash-locking tail, the fuse word size, effective HAS_MEMORY_ID_BLOCK per concrete load-like class,
-  * small integer functions translated from the property bodies: `certBlockOffset h`, `blockSize h`,
-    `keyLenOfHash`, image type values, and -- from `SecureBinary31Header.update` -- the value of
-    `image_total_length` after an export as a function of its OLD value (`updTotalLength old h cert`):
-    an accumulating `+=` shows up here and breaks the history theorem,
-  * `chainStartHash old h`: the value of `final_hash` when the first block of an export is processed
-    (`zeros h` iff one of export / process_cmd_blocks_to_export resets it before `_process_block` runs),
-  * `kdfData`: a symbolic translation of `_get_key_derivation_data` (straight-line bytes building), and
-    the iteration / key-length constants of `_derive_key`.
-The model (Model/Sb31.lean) computes with these; Properties/C05.lean proves the ROM-side reading of the
-format (hand-written constants) accepts what the model exports, so a changed source constant stops a
-theorem from compiling.  Anything the translator does not recognise becomes a sentinel value
-(999999 / `[]`) -- never a silently "right" one -- and is listed in the meta json.
+Principles (tools/ROBUSTNESS_BRIEF.md):
+  * every constant is read BY VALUE at its use site through tools/extract/consteval.py (a literal, a module constant, a class constant,
+    `self.X`, arithmetic, `calcsize(FORMAT)` ... give the same output); struct formats are emitted as normalised field-width lists;
+    tables the code only indexes are emitted sorted by key;
+  * small functions over a FINITE domain (block size / certificate block offset per hash length, key length per hash, hash per signature
+    length, image type, accepted access rights / key lengths, the CMAC iterations `_derive_key` performs per key length) are EXECUTED by a
+    tiny concrete interpreter (`Interp`: assignments, if/else and early returns, for-loops over ranges and lists, comprehensions,
+    functools.partial, calls of functions of the same module, injected stubs) and emitted as value tables / if-chains -- independent of
+    the shape of the body;
+  * only two functions need a SYMBOLIC translation because the theorems quantify over unbounded arguments:
+      - `updTotalLength old h cert` (SecureBinary31Header.update: the value of image_total_length after an export as a function of its OLD
+        value -- an accumulating `+=` shows up here and breaks the history theorem),
+      - `kdfData` (_get_key_derivation_data: straight-line bytes building over an arbitrary derivation constant / iteration);
+    their translators resolve every name by value and the Lean proofs normalise both sides (omega / case split + simp), so regrouping,
+    renamed locals, constants moved into names, flipped conditionals do not matter.  Anything the translators do not recognise becomes a
+    sentinel (999999 / `[]`) -- never a silently "right" value -- and is listed in the meta json (then a theorem breaks and the check
+    reports `no-failing-input-found` unless the oracle finds an input);
+  * `chainStartHash old h`: value of `final_hash` when the first block of an export is processed (`zeros h` iff export /
+    SecureBinary31Commands.export / process_cmd_blocks_to_export -- or a same-class helper they call, inlined one level -- resets it
+    before `_process_block` runs).
 """
 from __future__ import annotations
 
 import ast
-import re
+import types
 
+from consteval import ModuleEnv, NotConst, struct_fields
 from extract import emit, parse
 
 IMG = "spsdk/sbfile/sb31/images.py"
@@ -32,7 +35,11 @@ FUN = "spsdk/sbfile/sb31/functions.py"
 CON = "spsdk/sbfile/sb31/constants.py"
 
 BAD = 999999
-_W = {"B": 1, "b": 1, "H": 2, "h": 2, "I": 4, "i": 4, "L": 4, "l": 4, "Q": 8, "q": 8, "s": 1, "c": 1, "x": 1}
+_SIZE = {"x": 1, "c": 1, "b": 1, "B": 1, "?": 1, "h": 2, "H": 2, "i": 4, "I": 4, "l": 4, "L": 4, "q": 8, "Q": 8}
+HASHLEN = {"SHA1": 20, "SHA256": 32, "SHA384": 48, "SHA512": 64, "MD5": 16, "SM3": 32}
+# hash algorithms are represented by their digest length, byte orders by their names
+EXTERNALS = {"EnumHashAlgorithm": types.SimpleNamespace(**HASHLEN),
+             "Endianness": types.SimpleNamespace(LITTLE=types.SimpleNamespace(value="little"), BIG=types.SimpleNamespace(value="big"))}
 
 
 class Untr(Exception):
@@ -49,177 +56,368 @@ def _cls(tree, name):
 def _fun(node, name):
     if node is None:
         return None
-    for n in node.body if hasattr(node, "body") else []:
+    for n in getattr(node, "body", []):
         if isinstance(n, (ast.FunctionDef, ast.AsyncFunctionDef)) and n.name == name:
             return n
     return None
 
 
-def class_consts(c):
-    out = {}
-    if c is None:
-        return out
-    for st in c.body:
-        tgt = val = None
-        if isinstance(st, ast.Assign) and len(st.targets) == 1 and isinstance(st.targets[0], ast.Name):
-            tgt, val = st.targets[0].id, st.value
-        elif isinstance(st, ast.AnnAssign) and isinstance(st.target, ast.Name) and st.value is not None:
-            tgt, val = st.target.id, st.value
-        if tgt:
-            try:
-                out[tgt] = ast.literal_eval(val)
-            except (ValueError, SyntaxError):
-                pass
-    return out
+def _doc(st):
+    return isinstance(st, ast.Expr) and isinstance(st.value, ast.Constant) and isinstance(st.value.value, str)
 
 
-def enum_members(c):
-    out = []
-    if c is None:
-        return out
-    for st in c.body:
-        if isinstance(st, ast.Assign) and len(st.targets) == 1 and isinstance(st.targets[0], ast.Name) \
-                and isinstance(st.value, ast.Tuple) and st.value.elts:
-            try:
-                v = ast.literal_eval(st.value.elts[0])
-            except (ValueError, SyntaxError):
-                continue
-            if isinstance(v, int):
-                out.append((st.targets[0].id, v))
-    return out
-
-
-def fmt_widths(fmt):
-    """'<4s2H3LQ4L16s' -> (little?, [4,2,2,4,4,4,8,4,4,4,4,16]); `{}`-interpolated counts become 0."""
+def widths_of(fmt):
+    """'<4s2H3LQ4L16s' / '<4sHHLLLQLLLL16s' -> (little?, [4,2,2,4,4,4,8,4,4,4,4,16]); `{}`-interpolated byte counts become 0."""
     if not isinstance(fmt, str):
         return None
-    little = fmt[:1] == "<"
-    s = fmt[1:] if fmt[:1] in "<>=!@" else fmt
-    out = []
-    for m in re.finditer(r"(\d+|\{\})?([A-Za-z])", s):
-        cnt, ch = m.group(1), m.group(2)
-        if ch not in _W:
-            return None
-        if ch == "s":
-            out.append(0 if cnt == "{}" else int(cnt or 1))
-        else:
-            out += [_W[ch]] * (1 if cnt in (None, "{}") else int(cnt))
-    return little, out
-
-
-def calcsize(fmt):
-    r = fmt_widths(fmt)
-    return sum(r[1]) if r else BAD
-
-
-def pack_formats(fn):
-    """format strings of pack(...) calls in `fn`, source order (`self.FORMAT` -> 'FORMAT')."""
-    out = []
-    if fn is None:
-        return out
-    calls = [n for n in ast.walk(fn) if isinstance(n, ast.Call)]
-    calls.sort(key=lambda n: (n.lineno, n.col_offset))
-    for n in calls:
-        f = n.func
-        name = f.attr if isinstance(f, ast.Attribute) else f.id if isinstance(f, ast.Name) else None
-        if name == "pack" and n.args:
-            a = n.args[0]
-            if isinstance(a, ast.Constant) and isinstance(a.value, str):
-                out.append(a.value)
-            elif isinstance(a, ast.JoinedStr):
-                out.append("".join(v.value if isinstance(v, ast.Constant) else "{}" for v in a.values))
-            elif isinstance(a, ast.Attribute):
-                out.append("@" + a.attr)
-    return out
-
-
-def kwarg_int(fn, callee, kw, default=BAD):
-    """integer value of keyword `kw` (or 2nd positional) in the first call of `callee` inside fn."""
-    if fn is None:
-        return default
-    calls = [n for n in ast.walk(fn) if isinstance(n, ast.Call)]
-    calls.sort(key=lambda n: (n.lineno, n.col_offset))
-    for n in calls:
-        f = n.func
-        name = f.attr if isinstance(f, ast.Attribute) else f.id if isinstance(f, ast.Name) else None
-        if name == callee:
-            for k in n.keywords:
-                if k.arg == kw:
-                    try:
-                        return int(ast.literal_eval(k.value))
-                    except (ValueError, SyntaxError, TypeError):
-                        return default
-            if len(n.args) >= 2:
-                try:
-                    return int(ast.literal_eval(n.args[1]))
-                except (ValueError, SyntaxError, TypeError):
-                    return default
-    return default
+    try:
+        order, fields = struct_fields(fmt.replace("{}", "0"))
+    except (NotConst, ValueError):
+        return None
+    if order not in "<>=":
+        return None
+    return order == "<", [n if c in "sp" else _SIZE.get(c, BAD) for c, n in fields]
 
 
 # ---------------------------------------------------------------------------------------------------
-# tiny symbolic translator for integer expressions over Nat
-class IntTr:
-    def __init__(self, names, attrs, calls):
-        self.names, self.attrs, self.calls = dict(names), dict(attrs), dict(calls)
+# concrete interpreter for small functions
+class PyRaise(Exception):
+    def __init__(self, cls):
+        super().__init__(cls)
+        self.cls = cls
 
-    def tr(self, e):
-        if isinstance(e, ast.Constant) and isinstance(e.value, int) and not isinstance(e.value, bool) and e.value >= 0:
-            return str(e.value)
+
+_BUSY = object()
+
+
+class _Ret(Exception):
+    def __init__(self, v):
+        self.v = v
+
+
+class Interp:
+    """Executes function bodies on concrete values.  Names: locals -> class constants -> module constants (consteval) -> `externals`
+    (callables / namespaces supplied by the generator).  Unknown constructs raise Untr."""
+
+    def __init__(self, tree, externals=None, cls=None):
+        self.tree, self.env, self.cls = tree, ModuleEnv(tree), cls
+        self.ext = dict(EXTERNALS)
+        self.ext.update(externals or {})
+        self.funs = {n.name: n for n in tree.body if isinstance(n, ast.FunctionDef)}
+        self.depth = 0
+        self._consts = {}
+
+    # -------- constants of the module / of a class (inherited through bases of the same module), evaluated HERE so that they may
+    #          mention the generator's externals (EnumHashAlgorithm.X, Endianness.X.value ...)
+    def class_const(self, cname, attr, seen=()):
+        c = self.env.classes.get(cname)
+        if c is None or cname in seen:
+            return None
+        if attr in c.nodes:
+            return (cname, c.nodes[attr])
+        for b in c.node.bases:
+            if isinstance(b, ast.Name):
+                r = self.class_const(b.id, attr, seen + (cname,))
+                if r is not None:
+                    return r
+        return None
+
+    def const_value(self, cname, node):
+        key = (cname, id(node))
+        if key in self._consts:
+            if self._consts[key] is _BUSY:
+                raise Untr("cyclic constant")
+            return self._consts[key]
+        self._consts[key] = _BUSY
+        saved, self.cls = self.cls, cname
+        try:
+            v = self.ev(node, {})
+        except BaseException:
+            del self._consts[key]
+            raise
+        finally:
+            self.cls = saved
+        self._consts[key] = v
+        return v
+
+    # -------- expressions
+    def ev(self, e, loc):
+        if isinstance(e, ast.Constant):
+            return e.value
         if isinstance(e, ast.Name):
-            if e.id in self.names:
-                return self.names[e.id]
+            if e.id in loc:
+                return loc[e.id]
+            if e.id in self.ext:
+                return self.ext[e.id]
+            if e.id in self.funs:
+                return self.funs[e.id]
+            if self.cls:
+                r = self.class_const(self.cls, e.id)
+                if r is not None:
+                    return self.const_value(*r)
+            if e.id in self.env.nodes:
+                return self.const_value(None, self.env.nodes[e.id])
             raise Untr(f"name {e.id}")
         if isinstance(e, ast.Attribute):
-            key = ast.unparse(e)
-            if key in self.attrs:
-                return self.attrs[key]
-            raise Untr(f"attribute {key}")
+            if isinstance(e.value, ast.Name):
+                nm = e.value.id
+                cname = None if nm in loc or nm in self.ext else self.cls if nm in ("self", "cls") else nm if nm in self.env.classes else None
+                if cname:
+                    r = self.class_const(cname, e.attr)
+                    if r is not None:
+                        return self.const_value(*r)
+            try:
+                base = self.ev(e.value, loc)
+            except Untr:
+                base = None
+            if base is not None and not isinstance(base, (int, bytes, str)) and hasattr(base, e.attr):
+                return getattr(base, e.attr)
+            raise Untr("attribute " + ast.unparse(e))
+        if isinstance(e, ast.BinOp):
+            a, b = self.ev(e.left, loc), self.ev(e.right, loc)
+            ops = {ast.Add: lambda: a + b, ast.Sub: lambda: a - b, ast.Mult: lambda: a * b, ast.FloorDiv: lambda: a // b, ast.Mod: lambda: a % b,
+                   ast.LShift: lambda: a << b, ast.RShift: lambda: a >> b, ast.BitOr: lambda: a | b, ast.BitAnd: lambda: a & b, ast.BitXor: lambda: a ^ b}
+            f = ops.get(type(e.op))
+            if f is None:
+                raise Untr("operator " + type(e.op).__name__)
+            try:
+                return f()
+            except Exception as exc:  # noqa: BLE001
+                raise Untr(f"{ast.unparse(e)}: {exc}") from exc
+        if isinstance(e, ast.UnaryOp):
+            v = self.ev(e.operand, loc)
+            return {ast.Not: lambda: not v, ast.USub: lambda: -v, ast.Invert: lambda: ~v, ast.UAdd: lambda: +v}[type(e.op)]()
+        if isinstance(e, ast.BoolOp):
+            r = None
+            for v in e.values:
+                r = self.ev(v, loc)
+                if isinstance(e.op, ast.And) and not r:
+                    return r
+                if isinstance(e.op, ast.Or) and r:
+                    return r
+            return r
+        if isinstance(e, ast.Compare):
+            left = self.ev(e.left, loc)
+            for o, c in zip(e.ops, e.comparators):
+                right = self.ev(c, loc)
+                t = {ast.Eq: lambda: left == right, ast.NotEq: lambda: left != right, ast.Lt: lambda: left < right, ast.LtE: lambda: left <= right,
+                     ast.Gt: lambda: left > right, ast.GtE: lambda: left >= right, ast.In: lambda: left in right, ast.NotIn: lambda: left not in right,
+                     ast.Is: lambda: left is right, ast.IsNot: lambda: left is not right}.get(type(o))
+                if t is None:
+                    raise Untr("comparison")
+                if not t():
+                    return False
+                left = right
+            return True
+        if isinstance(e, ast.IfExp):
+            return self.ev(e.body, loc) if self.ev(e.test, loc) else self.ev(e.orelse, loc)
+        if isinstance(e, (ast.List, ast.Tuple)):
+            vals = [self.ev(x, loc) for x in e.elts]
+            return tuple(vals) if isinstance(e, ast.Tuple) else vals
+        if isinstance(e, ast.Dict):
+            return {self.ev(k, loc): self.ev(v, loc) for k, v in zip(e.keys, e.values)}
+        if isinstance(e, ast.Subscript):
+            base = self.ev(e.value, loc)
+            try:
+                if isinstance(e.slice, ast.Slice):
+                    s = e.slice
+                    return base[(self.ev(s.lower, loc) if s.lower else None):(self.ev(s.upper, loc) if s.upper else None)]
+                return base[self.ev(e.slice, loc)]
+            except Untr:
+                raise
+            except KeyError as exc:
+                raise PyRaise("KeyError") from exc
+            except IndexError as exc:
+                raise PyRaise("IndexError") from exc
+            except Exception as exc:  # noqa: BLE001
+                raise Untr(f"{ast.unparse(e)}: {exc}") from exc
+        if isinstance(e, ast.ListComp) and len(e.generators) == 1 and isinstance(e.generators[0].target, ast.Name):
+            g = e.generators[0]
+            out = []
+            for x in self.ev(g.iter, loc):
+                l2 = dict(loc, **{g.target.id: x})
+                if all(self.ev(c, l2) for c in g.ifs):
+                    out.append(self.ev(e.elt, l2))
+            return out
+        if isinstance(e, ast.JoinedStr):
+            return "".join(str(v.value) if isinstance(v, ast.Constant) else str(self.ev(v.value, loc)) for v in e.values)
         if isinstance(e, ast.Call):
-            key = ast.unparse(e.func)
-            if key in self.calls:
-                return self.calls[key]
-            raise Untr(f"call {key}")
+            return self.call(e, loc)
+        raise Untr("expression " + type(e).__name__)
+
+    def call(self, e, loc):
+        f = e.func
+        name = f.id if isinstance(f, ast.Name) else ast.unparse(f)
+        args = [self.ev(a, loc) for a in e.args]
+        kw = {k.arg: self.ev(k.value, loc) for k in e.keywords}
+        try:
+            if name in ("functools.partial", "partial"):
+                return ("partial", args[0], args[1:], kw)
+            if name == "int.to_bytes":
+                full = dict(zip(["value", "length", "byteorder"], args))
+                full.update(kw)
+                return int(full["value"]).to_bytes(full["length"], full["byteorder"])
+            if name in ("bytes", "len", "range", "list", "reversed", "enumerate", "int", "min", "max", "sum", "tuple", "sorted", "bytearray"):
+                r = {"bytes": bytes, "len": len, "range": range, "list": list, "reversed": reversed, "enumerate": enumerate, "int": int, "min": min,
+                     "max": max, "sum": sum, "tuple": tuple, "sorted": sorted, "bytearray": bytearray}[name](*args, **kw)
+                return list(r) if name in ("range", "reversed", "enumerate") else bytes(r) if name == "bytearray" else r
+            if name in ("pack", "struct.pack"):
+                import struct
+                return struct.pack(*args)
+            if name in ("calcsize", "struct.calcsize"):
+                import struct
+                return struct.calcsize(*args)
+            if isinstance(f, ast.Attribute) and f.attr in ("to_bytes", "join", "get", "append", "extend", "reverse", "items", "keys", "values", "hex"):
+                recv = self.ev(f.value, loc)
+                r = getattr(recv, f.attr)(*args, **kw)
+                return list(r) if f.attr in ("items", "keys", "values") else r
+            # callable value: local / external / module function / partial
+            target = loc.get(name) if isinstance(f, ast.Name) and name in loc else self.ext.get(name) if name in self.ext else None
+            if target is None and isinstance(f, ast.Name) and name in self.funs:
+                target = self.funs[name]
+            if target is None and isinstance(f, ast.Attribute):
+                target = self.ev(f, loc)
+            return self.apply(target, args, kw)
+        except (Untr, PyRaise, _Ret):
+            raise
+        except OverflowError as exc:
+            raise PyRaise("OverflowError") from exc
+        except Exception as exc:  # noqa: BLE001
+            raise Untr(f"call {name}: {type(exc).__name__}: {exc}") from exc
+
+    def apply(self, target, args, kw):
+        if isinstance(target, tuple) and target and target[0] == "partial":
+            return self.apply(target[1], list(target[2]) + list(args), dict(target[3], **kw))
+        if isinstance(target, ast.FunctionDef):
+            return self.run(target, args, kw)
+        if callable(target):
+            return target(*args, **kw)
+        raise Untr("call of a non-callable")
+
+    # -------- statements
+    def block(self, stmts, loc):
+        for st in stmts:
+            if _doc(st) or isinstance(st, ast.Pass):
+                continue
+            if isinstance(st, ast.Expr):
+                self.ev(st.value, loc)
+            elif isinstance(st, ast.If):
+                self.block(st.body if self.ev(st.test, loc) else st.orelse, loc)
+            elif isinstance(st, ast.Raise):
+                exc = st.exc.func if isinstance(st.exc, ast.Call) else st.exc
+                raise PyRaise(ast.unparse(exc).split(".")[-1] if exc is not None else "?")
+            elif isinstance(st, ast.Assign) and len(st.targets) == 1:
+                self.assign(st.targets[0], self.ev(st.value, loc), loc)
+            elif isinstance(st, ast.AnnAssign) and st.value is not None:
+                self.assign(st.target, self.ev(st.value, loc), loc)
+            elif isinstance(st, ast.AugAssign) and isinstance(st.target, ast.Name):
+                cur, v = loc[st.target.id], self.ev(st.value, loc)
+                op = {ast.Add: lambda: cur + v, ast.Sub: lambda: cur - v, ast.Mult: lambda: cur * v, ast.FloorDiv: lambda: cur // v,
+                      ast.BitOr: lambda: cur | v, ast.LShift: lambda: cur << v}.get(type(st.op))
+                if op is None:
+                    raise Untr("augmented assignment")
+                loc[st.target.id] = op()
+            elif isinstance(st, ast.For) and not st.orelse:
+                for x in self.ev(st.iter, loc):
+                    self.assign(st.target, x, loc)
+                    self.block(st.body, loc)
+            elif isinstance(st, ast.Return):
+                raise _Ret(self.ev(st.value, loc) if st.value is not None else None)
+            else:
+                raise Untr("statement " + type(st).__name__)
+
+    def assign(self, target, value, loc):
+        if isinstance(target, ast.Name):
+            loc[target.id] = value
+        elif isinstance(target, ast.Tuple) and all(isinstance(t, ast.Name) for t in target.elts):
+            for t, v in zip(target.elts, value):
+                loc[t.id] = v
+        else:
+            raise Untr("assignment target " + ast.unparse(target))
+
+    def run(self, fn, args=(), kw=None):
+        self.depth += 1
+        if self.depth > 8:
+            raise Untr("recursion")
+        try:
+            params = [a.arg for a in fn.args.args]
+            loc = {}
+            defaults = fn.args.defaults
+            for a, d in zip(params[len(params) - len(defaults):], defaults):
+                loc[a] = self.ev(d, {})
+            loc.update(dict(zip(params, args)))
+            loc.update(kw or {})
+            missing = [p for p in params if p not in loc]
+            if missing:
+                raise Untr(f"missing arguments {missing}")
+            try:
+                self.block(fn.body, loc)
+            except _Ret as r:
+                return r.v
+            return None
+        finally:
+            self.depth -= 1
+
+
+def outcome(fn):
+    """('ok', value) | ('E', class name) of a thunk run under the interpreter"""
+    try:
+        return ("ok", fn())
+    except PyRaise as r:
+        return ("E", r.cls)
+
+
+# ---------------------------------------------------------------------------------------------------
+# symbolic translators (Nat expressions / bytes expressions); names resolved by value
+class IntTr:
+    def __init__(self, env, cls, names, attrs, calls):
+        self.env, self.cls, self.names, self.attrs, self.calls = env, cls, dict(names), dict(attrs), dict(calls)
+
+    def tr(self, e):
+        if isinstance(e, ast.Name) and e.id in self.names:
+            return self.names[e.id]
+        if isinstance(e, ast.Attribute) and ast.unparse(e) in self.attrs:
+            return self.attrs[ast.unparse(e)]
+        if isinstance(e, ast.Call) and ast.unparse(e.func) in self.calls:
+            return self.calls[ast.unparse(e.func)]
+        try:  # any constant expression, however it is spelled
+            v = self.env.eval(e, cls=self.cls)
+            if isinstance(v, int) and not isinstance(v, bool) and v >= 0:
+                return str(v)
+        except NotConst:
+            pass
         if isinstance(e, ast.BinOp):
             a, b = self.tr(e.left), self.tr(e.right)
             op = {ast.Add: "+", ast.Mult: "*", ast.FloorDiv: "/", ast.LShift: "<<<", ast.Mod: "%"}.get(type(e.op))
             if op is None:
                 raise Untr(f"operator {type(e.op).__name__}")
             return f"({a} {op} {b})"
-        if isinstance(e, ast.IfExp):
-            return f"(if {self.cond(e.test)} then {self.tr(e.body)} else {self.tr(e.orelse)})"
-        raise Untr(f"expression {type(e).__name__}")
-
-    def cond(self, t):
-        if isinstance(t, ast.Compare) and len(t.ops) == 1 and isinstance(t.ops[0], (ast.Eq, ast.NotEq)):
-            a, b = self.tr(t.left), self.tr(t.comparators[0])
-            return f"{a} {'=' if isinstance(t.ops[0], ast.Eq) else '≠'} {b}"
-        if isinstance(t, ast.Name) and t.id in self.names:
-            return f"{self.names[t.id]} = true"
-        raise Untr("condition " + ast.unparse(t))
+        raise Untr("expression " + ast.unparse(e))
 
 
-def translate_update(cls_hdr, header_size):
+def translate_update(env, cls_hdr):
     """symbolic value of self.image_total_length after SecureBinary31Header.update, as a Lean Nat expression in
     `old` (value before), `h` (hash length), `cert` (cert_block.expected_size)."""
     fn = _fun(cls_hdr, "update")
     if fn is None:
         raise Untr("no update()")
-    tr = IntTr({}, {"self.HEADER_SIZE": str(header_size), "cert_block.expected_size": "cert",
-                    "self.image_total_length": "old"}, {"get_hash_length": "h"})
+    params = [a.arg for a in fn.args.args]
+    cert_param = params[2] if len(params) > 2 else "cert_block"
+    tr = IntTr(env, cls_hdr.name, {}, {f"{cert_param}.expected_size": "cert", "self.image_total_length": "old"},
+               {"get_hash_length": "h", f"{cert_param}.expected_size": "cert"})
     for st in fn.body:
-        if isinstance(st, ast.Expr) and isinstance(st.value, ast.Constant):
-            continue  # docstring
-        if isinstance(st, ast.Assign) and len(st.targets) == 1:
-            t = st.targets[0]
+        if _doc(st):
+            continue
+        if isinstance(st, (ast.Assign, ast.AnnAssign)) and (isinstance(st, ast.AnnAssign) or len(st.targets) == 1):
+            t = st.target if isinstance(st, ast.AnnAssign) else st.targets[0]
             if isinstance(t, ast.Name):
                 tr.names[t.id] = tr.tr(st.value)
                 continue
             if isinstance(t, ast.Attribute) and ast.unparse(t) == "self.image_total_length":
                 tr.attrs["self.image_total_length"] = tr.tr(st.value)
                 continue
-            if isinstance(t, ast.Attribute) and ast.unparse(t) == "self.block_count":
-                continue
+            if isinstance(t, ast.Attribute) and isinstance(t.value, ast.Name) and t.value.id == "self":
+                continue  # other members (block_count)
             raise Untr("assignment to " + ast.unparse(t))
         if isinstance(st, ast.AugAssign) and isinstance(st.op, ast.Add) and ast.unparse(st.target) == "self.image_total_length":
             tr.attrs["self.image_total_length"] = f"({tr.attrs['self.image_total_length']} + {tr.tr(st.value)})"
@@ -228,48 +426,72 @@ def translate_update(cls_hdr, header_size):
     return tr.attrs["self.image_total_length"]
 
 
-def chain_start_resets(tree):
-    """Does the export path assign `self.final_hash = bytes(...)` before the blocks are processed?
+def _stmts_inlined(cls_node, fn):
+    """top-level statements of fn with calls `self._helper(...)` of same-class helpers (as bare statements) replaced by the helper's body"""
+    out = []
+    for st in fn.body:
+        if isinstance(st, ast.Expr) and isinstance(st.value, ast.Call) and isinstance(st.value.func, ast.Attribute) \
+                and isinstance(st.value.func.value, ast.Name) and st.value.func.value.id == "self":
+            h = _fun(cls_node, st.value.func.attr)
+            if h is not None and not any(isinstance(n, ast.Return) and n.value is not None for n in ast.walk(h)):
+                out.extend(s for s in h.body if not _doc(s))
+                continue
+        out.append(st)
+    return out
 
-    Looks (in call order) at SecureBinary31.export, SecureBinary31Commands.export and
-    SecureBinary31Commands.process_cmd_blocks_to_export; a reset counts when it is a top-level statement of
-    one of them that precedes the statement which (transitively) runs `_process_block`.
-    For SecureBinary31.export the attribute is `self.sb_commands.final_hash`."""
+
+def _is_zero_bytes(v):
+    """`bytes(<n>)` / `b"\\x00" * <n>` / `bytearray(<n>)`: an all-zero byte string"""
+    if isinstance(v, ast.Call) and ast.unparse(v.func) in ("bytes", "bytearray") and len(v.args) == 1 and not v.keywords:
+        return not (isinstance(v.args[0], ast.Constant) and isinstance(v.args[0].value, (bytes, str)))
+    if isinstance(v, ast.BinOp) and isinstance(v.op, ast.Mult):
+        for a in (v.left, v.right):
+            if isinstance(a, ast.Constant) and a.value in (b"\x00", b"\0"):
+                return True
+    return False
+
+
+def chain_start_resets(tree):
+    """Does the export path assign an all-zero value to the running hash before the blocks are processed?"""
     sb, cm = _cls(tree, "SecureBinary31"), _cls(tree, "SecureBinary31Commands")
-    sites = [(_fun(sb, "export"), "self.sb_commands.final_hash", ("sb_commands.export",)),
-             (_fun(cm, "export"), "self.final_hash", ("process_cmd_blocks_to_export",)),
-             (_fun(cm, "process_cmd_blocks_to_export"), "self.final_hash", ("_process_block",))]
-    for fn, attr, callees in sites:
+    sites = [(sb, _fun(sb, "export"), "self.sb_commands.final_hash", ("sb_commands.export",)),
+             (cm, _fun(cm, "export"), "self.final_hash", ("process_cmd_blocks_to_export",)),
+             (cm, _fun(cm, "process_cmd_blocks_to_export"), "self.final_hash", ("_process_block",))]
+    for cnode, fn, attr, callees in sites:
         if fn is None:
             continue
-        for st in fn.body:
+        for st in _stmts_inlined(cnode, fn):
             src = ast.unparse(st)
             if any(c + "(" in src for c in callees):
                 break
-            if isinstance(st, ast.Assign) and len(st.targets) == 1 and ast.unparse(st.targets[0]) == attr \
-                    and isinstance(st.value, ast.Call) and ast.unparse(st.value.func) == "bytes":
-                return True, f"{fn.name}:{st.lineno}"
+            tgt = st.targets[0] if isinstance(st, ast.Assign) and len(st.targets) == 1 else st.target if isinstance(st, ast.AnnAssign) else None
+            if tgt is not None and ast.unparse(tgt) == attr and getattr(st, "value", None) is not None and _is_zero_bytes(st.value):
+                return True, fn.name
     return False, None
 
 
-# ---------------------------------------------------------------------------------------------------
-# symbolic translator for the straight-line bytes-building function _get_key_derivation_data
 class BytesTr:
-    def __init__(self, params, enum_tags):
+    """straight-line bytes-building function -> Lean expression; every non-parameter name is resolved by value"""
+
+    def __init__(self, interp, params):
+        self.it = interp
         self.env = {p: ("int", p) for p in params}
-        self.enum_tags = enum_tags
-        self.guards = {}
+
+    def const(self, e):
+        names = {n.id for n in ast.walk(e) if isinstance(n, ast.Name)}
+        if names & set(self.env):
+            raise Untr("not constant")
+        return self.it.ev(e, {})
 
     def int_(self, e):
-        if isinstance(e, ast.Constant) and isinstance(e.value, int) and not isinstance(e.value, bool) and e.value >= 0:
-            return str(e.value)
         if isinstance(e, ast.Name) and e.id in self.env and self.env[e.id][0] == "int":
             return self.env[e.id][1]
-        if isinstance(e, ast.Attribute):
-            key = ast.unparse(e)
-            if key in self.enum_tags:
-                return str(self.enum_tags[key])
-            raise Untr("attribute " + key)
+        try:
+            v = self.const(e)
+            if isinstance(v, int) and not isinstance(v, bool) and v >= 0:
+                return str(v)
+        except (Untr, PyRaise):
+            pass
         if isinstance(e, ast.BinOp):
             op = {ast.Add: "+", ast.Mult: "*", ast.LShift: "<<<", ast.BitOr: "|||"}.get(type(e.op))
             if op is None:
@@ -282,37 +504,51 @@ class BytesTr:
     def cond(self, t):
         if isinstance(t, ast.Compare) and len(t.ops) == 1 and isinstance(t.ops[0], (ast.Eq, ast.NotEq)):
             return f"{self.int_(t.left)} {'=' if isinstance(t.ops[0], ast.Eq) else '≠'} {self.int_(t.comparators[0])}"
+        if isinstance(t, ast.UnaryOp) and isinstance(t.op, ast.Not):
+            return f"¬ ({self.cond(t.operand)})"
         raise Untr("condition " + ast.unparse(t))
 
+    @staticmethod
+    def lit(b):
+        return "[" + ", ".join(f"0x{x:02x}" for x in b) + "]" if b else "([] : Bytes)"
+
     def bytes_(self, e):
-        if isinstance(e, ast.Constant) and isinstance(e.value, bytes):
-            return "[" + ", ".join(f"0x{b:02x}" for b in e.value) + "]"
         if isinstance(e, ast.Name) and e.id in self.env and self.env[e.id][0] == "bytes":
             return self.env[e.id][1]
+        try:
+            v = self.const(e)
+            if isinstance(v, (bytes, bytearray)):
+                return self.lit(bytes(v)) if len(v) < 4 or any(v) else f"zeros {len(v)}"
+        except (Untr, PyRaise):
+            pass
         if isinstance(e, ast.BinOp) and isinstance(e.op, ast.Add):
             return f"{self.bytes_(e.left)} ++ {self.bytes_(e.right)}"
         if isinstance(e, ast.IfExp):
             return f"(if {self.cond(e.test)} then {self.bytes_(e.body)} else {self.bytes_(e.orelse)})"
         if isinstance(e, ast.Call):
             f = ast.unparse(e.func)
-            if f == "bytes" and len(e.args) == 1 and not e.keywords:
-                return f"zeros {self.int_(e.args[0])}"
+            if f == "bytes" and len(e.args) == 1 and isinstance(e.args[0], ast.List):
+                return " ++ ".join(f"beEnc 1 {self.int_(x)}" for x in e.args[0].elts) if e.args[0].elts else "([] : Bytes)"
             if f == "int.to_bytes" or (isinstance(e.func, ast.Attribute) and e.func.attr == "to_bytes"):
                 args = list(e.args)
                 val = args.pop(0) if f == "int.to_bytes" else e.func.value
                 kw = {k.arg: k.value for k in e.keywords}
+                if f == "int.to_bytes" and "value" in kw:
+                    val = kw["value"]
                 length = kw.get("length", args[0] if args else None)
                 order = kw.get("byteorder", args[1] if len(args) > 1 else None)
                 if length is None or order is None:
                     raise Untr("to_bytes without length/byteorder")
-                o = ast.unparse(order)
-                if "LITTLE" in o or o in ("'little'", '"little"'):
-                    enc = "leEnc"
-                elif "BIG" in o or o in ("'big'", '"big"'):
-                    enc = "beEnc"
-                else:
-                    raise Untr("byteorder " + o)
-                return f"{enc} {self.int_(length)} {self.int_(val)}"
+                o, n = self.const(order), self.const(length)
+                if o not in ("little", "big") or not isinstance(n, int):
+                    raise Untr("to_bytes arguments")
+                return f"{'leEnc' if o == 'little' else 'beEnc'} {n} {self.int_(val)}"
+            if f in ("pack", "struct.pack") and e.args:
+                fmt = self.const(e.args[0])
+                order, fields = struct_fields(fmt)
+                if order not in "<>" or len(fields) != len(e.args) - 1 or any(c in "sp" for c, _ in fields):
+                    raise Untr("pack format")
+                return " ++ ".join(f"{'leEnc' if order == '<' else 'beEnc'} {_SIZE[c]} {self.int_(a)}" for (c, _), a in zip(fields, e.args[1:]))
         raise Untr("bytes expression " + ast.unparse(e))
 
     def any_(self, e):
@@ -323,22 +559,17 @@ class BytesTr:
 
     def run(self, fn):
         for st in fn.body:
-            if isinstance(st, ast.Expr) and isinstance(st.value, ast.Constant):
+            if _doc(st):
                 continue
-            if isinstance(st, ast.If) and len(st.body) == 1 and isinstance(st.body[0], ast.Raise) and not st.orelse:
-                t = st.test  # domain guard `x not in [..]`
-                if isinstance(t, ast.Compare) and isinstance(t.ops[0], ast.NotIn) and isinstance(t.left, ast.Name):
-                    try:
-                        self.guards[t.left.id] = [int(v) for v in ast.literal_eval(t.comparators[0])]
-                    except (ValueError, SyntaxError, TypeError):
-                        self.guards[t.left.id] = None
+            if isinstance(st, ast.If) and st.body and isinstance(st.body[-1], ast.Raise) and not st.orelse:
+                continue  # domain guards: evaluated by execution (kdfRights / kdfKeyLens)
+            if isinstance(st, (ast.Assign, ast.AnnAssign)):
+                t = st.target if isinstance(st, ast.AnnAssign) else st.targets[0] if len(st.targets) == 1 else None
+                if isinstance(t, ast.Name) and st.value is not None:
+                    kind, txt = self.any_(st.value)
+                    self.env[t.id] = (kind, f"({txt})")
                     continue
-                raise Untr("guard " + ast.unparse(t))
-            if isinstance(st, ast.Assign) and len(st.targets) == 1 and isinstance(st.targets[0], ast.Name):
-                kind, txt = self.any_(st.value)
-                self.env[st.targets[0].id] = (kind, f"({txt})")
-                continue
-            if isinstance(st, ast.AugAssign) and isinstance(st.op, ast.Add) and isinstance(st.target, ast.Name):
+            if isinstance(st, ast.AugAssign) and isinstance(st.op, ast.Add) and isinstance(st.target, ast.Name) and st.target.id in self.env:
                 kind, cur = self.env[st.target.id]
                 if kind != "bytes":
                     raise Untr("+= on int")
@@ -350,6 +581,7 @@ class BytesTr:
         raise Untr("no return")
 
 
+# ---------------------------------------------------------------------------------------------------
 def gen_Sb31Consts():
     meta = {"sources": [IMG, CMD, FUN, CON], "untranslated": [], "formats": {}}
     L = ["import SpsdkVerif.Crypto.Modes", "", "namespace SpsdkVerif.Generated.Sb31Consts",
@@ -358,294 +590,380 @@ def gen_Sb31Consts():
     def d(name, val, comment=None):
         L.append(f"def {name} : Nat := {val}" + (f"  -- {comment}" if comment else ""))
 
+    def note(what, exc):
+        meta["untranslated"].append(f"{what}: {exc}")
+
     try:
         img, cmd, fun, con = parse(IMG), parse(CMD), parse(FUN), parse(CON)
     except (OSError, SyntaxError) as exc:
-        meta["untranslated"].append(f"source unreadable: {exc}")
+        note("source unreadable", exc)
         img = cmd = fun = con = ast.parse("")
+    eI, eC, eF, eK = ModuleEnv(img), ModuleEnv(cmd), ModuleEnv(fun), ModuleEnv(con)
+
+    def cval(env, cname, attr, default=BAD, typ=int):
+        try:
+            v = env.cls(cname).value(attr)
+            return v if isinstance(v, typ) and not isinstance(v, bool) else default
+        except NotConst as exc:
+            note(f"{cname}.{attr}", exc)
+            return default
+
+    def ev(env, node, cname=None, local=None, default=BAD, typ=int):
+        try:
+            v = env.eval(node, cls=cname, local=dict(EXTERNALS, **(local or {})))
+            return v if isinstance(v, typ) and not isinstance(v, bool) else default
+        except NotConst:
+            return default
+
+    def enum_members(env, cname):
+        """[(NAME, tag)] of an SpsdkEnum class whose members evaluate to tuples starting with an int"""
+        out = []
+        c = env.classes.get(cname)
+        for n in (c.nodes if c else {}):
+            try:
+                v = c.value(n)
+            except NotConst:
+                continue
+            if isinstance(v, tuple) and v and isinstance(v[0], int):
+                out.append((n, v[0]))
+        return out
 
     # ---- command tags
-    tags = enum_members(_cls(con, "EnumCmdTag"))
+    tags = sorted(enum_members(eK, "EnumCmdTag"), key=lambda p: p[1])
     td = dict(tags)
-    L.append(f"def cmdTags : List (String × Nat) := [{', '.join(f'(\"{n}\", {v})' for n, v in tags)}]")
+    L.append(f"def cmdTags : List (String × Nat) := [{', '.join(f'(\"{n}\", {v})' for n, v in tags)}]  -- sorted by tag")
     names = {"ERASE": "tagErase", "LOAD": "tagLoad", "EXECUTE": "tagExecute", "CALL": "tagCall", "PROGRAM_FUSES": "tagProgFuses",
              "PROGRAM_IFR": "tagProgIfr", "LOAD_CMAC": "tagLoadCmac", "COPY": "tagCopy", "LOAD_HASH_LOCKING": "tagLoadHashLocking",
              "LOAD_KEY_BLOB": "tagLoadKeyBlob", "CONFIGURE_MEMORY": "tagConfigureMemory", "FILL_MEMORY": "tagFillMemory",
              "FW_VERSION_CHECK": "tagFwVersionCheck", "RESET": "tagReset"}
     for n, lean in names.items():
         d(lean, td.get(n, BAD), f"EnumCmdTag.{n}")
-    # which tag does each command class pass to BaseCmd.__init__ (cmd_tag=EnumCmdTag.X)?
+
+    def tag_of(node):
+        """EnumCmdTag.X (possibly `.tag`) anywhere in the expression -> tag value"""
+        for n in ast.walk(node):
+            if isinstance(n, ast.Attribute) and isinstance(n.value, ast.Name) and n.value.id == "EnumCmdTag" and n.attr in td:
+                return td[n.attr]
+        return None
+
+    # which tag does each command class hand to the base constructor (keyword or positional, in its own __init__)?
     cls_tag = []
-    for c in [n for n in ast.walk(cmd) if isinstance(n, ast.ClassDef) and n.name.startswith("Cmd")]:
+    for c in [n for n in cmd.body if isinstance(n, ast.ClassDef) and n.name.startswith("Cmd")]:
         init = _fun(c, "__init__")
         if init is None:
             continue
+        found = None
         for n in ast.walk(init):
-            if isinstance(n, ast.keyword) and n.arg == "cmd_tag" and isinstance(n.value, ast.Attribute) \
-                    and isinstance(n.value.value, ast.Name) and n.value.value.id == "EnumCmdTag":
-                cls_tag.append((c.name, td.get(n.value.attr, BAD)))
+            if isinstance(n, ast.Call) and isinstance(n.func, ast.Attribute) and n.func.attr == "__init__":
+                for a in list(n.args) + [k.value for k in n.keywords]:
+                    found = found if found is not None else tag_of(a)
+        if found is not None:
+            cls_tag.append((c.name, found))
     cls_tag.sort()
     L.append(f"def classTags : List (String × Nat) := [{', '.join(f'(\"{a}\", {b})' for a, b in cls_tag)}]")
-    # TAG_TO_CLASS
-    t2c = []
-    for n in ast.walk(cmd):
-        tgt = n.target if isinstance(n, ast.AnnAssign) else n.targets[0] if isinstance(n, ast.Assign) and n.targets else None
-        if isinstance(tgt, ast.Name) and tgt.id == "TAG_TO_CLASS" and isinstance(n.value, ast.Dict):
-            for k, v in zip(n.value.keys, n.value.values):
-                if isinstance(k, ast.Attribute) and isinstance(v, ast.Name):
-                    t2c.append((td.get(k.attr, BAD), v.id))
-    L.append(f"def tagToClass : List (Nat × String) := [{', '.join(f'({a}, \"{b}\")' for a, b in t2c)}]")
 
-    # CFG_NAME_TO_CLASS: YAML command name -> class, composed with the class tags: YAML name -> command tag
+    def name_table(table):
+        for n in ast.walk(cmd):
+            tgt = n.target if isinstance(n, ast.AnnAssign) else n.targets[0] if isinstance(n, ast.Assign) and n.targets else None
+            if isinstance(tgt, ast.Name) and tgt.id == table and isinstance(n.value, ast.Dict):
+                return list(zip(n.value.keys, n.value.values))
+        return []
+
+    t2c = sorted((tag_of(k) if tag_of(k) is not None else BAD, v.id) for k, v in name_table("TAG_TO_CLASS") if isinstance(v, ast.Name))
+    L.append(f"def tagToClass : List (Nat × String) := [{', '.join(f'({a}, \"{b}\")' for a, b in t2c)}]  -- sorted by tag")
     c2t = dict(cls_tag)
-    n2c = []
-    for n in ast.walk(cmd):
-        tgt = n.target if isinstance(n, ast.AnnAssign) else n.targets[0] if isinstance(n, ast.Assign) and n.targets else None
-        if isinstance(tgt, ast.Name) and tgt.id == "CFG_NAME_TO_CLASS" and isinstance(n.value, ast.Dict):
-            for k, v in zip(n.value.keys, n.value.values):
-                if isinstance(k, ast.Constant) and isinstance(v, ast.Name):
-                    n2c.append((str(k.value), v.id))
-    L.append(f"def cfgNameToClass : List (String × String) := [{', '.join(f'(\"{a}\", \"{b}\")' for a, b in n2c)}]")
+    n2c = sorted((ev(eC, k, typ=str, default="?"), v.id) for k, v in name_table("CFG_NAME_TO_CLASS") if isinstance(v, ast.Name))
+    L.append(f"def cfgNameToClass : List (String × String) := [{', '.join(f'(\"{a}\", \"{b}\")' for a, b in n2c)}]  -- sorted by name")
     L.append(f"def cfgNameToTag : List (String × Nat) := [{', '.join(f'(\"{a}\", {c2t.get(b, BAD)})' for a, b in n2c)}]")
-    # configuration keys each command class reads in load_from_config (`config["k"]`, `config.get("k", …)`), sorted
-    keys = []
+    # configuration keys each command class reads in load_from_config (`<cfg>["k"]`, `<cfg>.get("k"[, default])`), sorted; defaults by value
+    keys, opts = [], []
     for cname in sorted({b for _, b in n2c}):
         fn = _fun(_cls(cmd, cname), "load_from_config")
-        ks = set()
+        ks, ds = set(), {}
+        cfgname = fn.args.args[1].arg if fn is not None and len(fn.args.args) > 1 else "config"
         for n in ast.walk(fn) if fn is not None else []:
-            if isinstance(n, ast.Subscript) and isinstance(n.value, ast.Name) and n.value.id == "config" \
-                    and isinstance(n.slice, ast.Constant) and isinstance(n.slice.value, str):
-                ks.add(n.slice.value)
+            if isinstance(n, ast.Subscript) and isinstance(n.value, ast.Name) and n.value.id == cfgname:
+                k = ev(eC, n.slice, cname, typ=str, default=None)
+                if k is not None:
+                    ks.add(k)
             if isinstance(n, ast.Call) and isinstance(n.func, ast.Attribute) and n.func.attr == "get" \
-                    and isinstance(n.func.value, ast.Name) and n.func.value.id == "config" and n.args \
-                    and isinstance(n.args[0], ast.Constant) and isinstance(n.args[0].value, str):
-                ks.add(n.args[0].value)
+                    and isinstance(n.func.value, ast.Name) and n.func.value.id == cfgname and n.args:
+                k = ev(eC, n.args[0], cname, typ=str, default=None)
+                if k is not None:
+                    ks.add(k)
+                    if len(n.args) == 2:
+                        dv = ev(eC, n.args[1], cname, typ=(str, int), default=None)
+                        if dv is not None:
+                            ds[k] = str(dv)
         keys.append((cname, sorted(ks)))
+        opts += [(cname, k, ds[k]) for k in sorted(ds)]
     L.append("def cfgKeys : List (String × List String) := [" +
              ", ".join(f'(\"{a}\", [{", ".join(chr(34) + k + chr(34) for k in ks)}])' for a, ks in keys) + "]")
+    L.append("def cfgDefaults : List (String × String × String) := [" + ", ".join(f'(\"{a}\", \"{k}\", \"{v}\")' for a, k, v in opts) + "]")
     meta["cfg_keys"] = {a: ks for a, ks in keys}
-    # keys read with a default (`config.get("k", d)`): optional in a configuration; d as written
-    opts = []
-    for cname in sorted({b for _, b in n2c}):
-        fn = _fun(_cls(cmd, cname), "load_from_config")
-        ds = {}
-        for n in ast.walk(fn) if fn is not None else []:
-            if isinstance(n, ast.Call) and isinstance(n.func, ast.Attribute) and n.func.attr == "get" \
-                    and isinstance(n.func.value, ast.Name) and n.func.value.id == "config" and len(n.args) == 2 \
-                    and isinstance(n.args[0], ast.Constant) and isinstance(n.args[1], ast.Constant):
-                ds[str(n.args[0].value)] = str(n.args[1].value)
-        for k in sorted(ds):
-            opts.append((cname, k, ds[k]))
-    L.append("def cfgDefaults : List (String × String × String) := [" +
-             ", ".join(f'(\"{a}\", \"{k}\", \"{v}\")' for a, k, v in opts) + "]")
 
-    # ---- command formats / constants
-    base = _cls(cmd, "BaseCmd")
-    bc = class_consts(base)
-    d("cmdMagic", bc.get("TAG", BAD), "BaseCmd.TAG")
-    fm = {"fmtBaseCmd": bc.get("FORMAT"), "fmtKeyBlob": class_consts(_cls(cmd, "CmdLoadKeyBlob")).get("FORMAT"),
-          "fmtSection": class_consts(_cls(cmd, "CmdSectionHeader")).get("FORMAT"),
-          "fmtHeader": class_consts(_cls(img, "SecureBinary31Header")).get("HEADER_FORMAT")}
+    # ---- command formats / constants (by value at the use site)
+    d("cmdMagic", cval(eC, "BaseCmd", "TAG"), "BaseCmd.TAG")
+
+    def pack_format(tree, env, cname, fname):
+        """first argument of the first pack(...) call in the method, by value (f-string interpolations become `{}`)"""
+        fn = _fun(_cls(tree, cname), fname)
+        calls = sorted((n for n in ast.walk(fn) if isinstance(n, ast.Call)), key=lambda n: (n.lineno, n.col_offset)) if fn is not None else []
+        for n in calls:
+            f = n.func
+            nm = f.attr if isinstance(f, ast.Attribute) else f.id if isinstance(f, ast.Name) else None
+            if nm == "pack" and n.args:
+                a = n.args[0]
+                if isinstance(a, ast.JoinedStr):
+                    return "".join(str(v.value) if isinstance(v, ast.Constant) else (str(ev(env, v.value, cname, default="{}", typ=(int, str)))) for v in a.values)
+                return ev(env, a, cname, typ=str, default=None)
+        return None
+
+    fm = {"fmtBaseCmd": cval(eC, "BaseCmd", "FORMAT", None, str), "fmtKeyBlob": cval(eC, "CmdLoadKeyBlob", "FORMAT", None, str),
+          "fmtSection": cval(eC, "CmdSectionHeader", "FORMAT", None, str), "fmtHeader": cval(eI, "SecureBinary31Header", "HEADER_FORMAT", None, str)}
     for cname, fname, lean in (("CmdLoadBase", "export", "fmtLoadMemBlock"), ("CmdErase", "export", "fmtEraseTail"),
-                               ("CmdCopy", "export", "fmtCopyTail"), ("CmdFillMemory", "export", "fmtFillTail"),
-                               ("SecureBinary31Commands", "_process_block", "fmtDataBlock")):
-        tree = img if cname.startswith("Secure") else cmd
-        pf = pack_formats(_fun(_cls(tree, cname), fname))
-        fm[lean] = pf[0] if pf else None
+                               ("CmdCopy", "export", "fmtCopyTail"), ("CmdFillMemory", "export", "fmtFillTail")):
+        fm[lean] = pack_format(cmd, eC, cname, fname)
     for lean, f in fm.items():
-        r = fmt_widths(f)
+        r = widths_of(f)
         meta["formats"][lean] = f
         if r is None:
-            meta["untranslated"].append(f"format {lean}: {f!r}")
+            note(f"format {lean}", repr(f))
             L.append(f"def {lean} : List Nat := [{BAD}]")
             L.append(f"def {lean}Little : Bool := false")
         else:
-            L.append(f"def {lean} : List Nat := [{', '.join(map(str, r[1]))}]  -- {f}")
+            L.append(f"def {lean} : List Nat := [{', '.join(map(str, r[1]))}]")
             L.append(f"def {lean}Little : Bool := {'true' if r[0] else 'false'}")
-    d("loadAlign", kwarg_int(_fun(_cls(cmd, "CmdLoadBase"), "export"), "align_block", "alignment"), "CmdLoadBase.export align_block")
-    d("keyBlobAlign", kwarg_int(_fun(_cls(cmd, "CmdLoadKeyBlob"), "export"), "align_block", "alignment"), "CmdLoadKeyBlob.export align_block")
-    # hash-locking tail: `data += bytes(64)`
+    # the data block may be packed in one call (f-string format) or assembled from pieces: optional trip-wire
+    r = widths_of(pack_format(img, eI, "SecureBinary31Commands", "_process_block"))
+    L.append(f"def fmtDataBlock : List Nat := [{', '.join(map(str, r[1])) if r else ''}]  -- [] = no single pack() call")
+    L.append(f"def fmtDataBlockLittle : Bool := {'true' if (r is None or r[0]) else 'false'}")
+
+    def call_arg(tree, env, cname, fname, callee, kw, pos):
+        fn = _fun(_cls(tree, cname), fname)
+        calls = sorted((n for n in ast.walk(fn) if isinstance(n, ast.Call)), key=lambda n: (n.lineno, n.col_offset)) if fn is not None else []
+        for n in calls:
+            f = n.func
+            nm = f.attr if isinstance(f, ast.Attribute) else f.id if isinstance(f, ast.Name) else None
+            if nm == callee:
+                for k in n.keywords:
+                    if k.arg == kw:
+                        return ev(env, k.value, cname)
+                if len(n.args) > pos:
+                    return ev(env, n.args[pos], cname)
+        return BAD
+
+    d("loadAlign", call_arg(cmd, eC, "CmdLoadBase", "export", "align_block", "alignment", 1), "CmdLoadBase.export align_block")
+    d("keyBlobAlign", call_arg(cmd, eC, "CmdLoadKeyBlob", "export", "align_block", "alignment", 1), "CmdLoadKeyBlob.export align_block")
+    # hash-locking tail: the constant byte string export() appends (`bytes(64)`, `b"\0" * 64`, a class constant ...)
     tail = BAD
     hl = _fun(_cls(cmd, "CmdLoadHashLocking"), "export")
     for n in ast.walk(hl) if hl is not None else []:
-        if isinstance(n, ast.Call) and ast.unparse(n.func) == "bytes" and len(n.args) == 1:
-            try:
-                tail = int(ast.literal_eval(n.args[0]))
-            except (ValueError, SyntaxError, TypeError):
-                pass
-    d("hashLockTail", tail, "CmdLoadHashLocking.export appends bytes(n)")
-    # fuse word size: `self.length //= 4`
-    fw = BAD
+        if isinstance(n, (ast.Call, ast.BinOp, ast.Attribute, ast.Name)):
+            v = ev(eC, n, "CmdLoadHashLocking", typ=bytes, default=None)
+            if v is not None and len(v) > 0 and not any(v):
+                tail = len(v)
+    d("hashLockTail", tail, "CmdLoadHashLocking.export appends this many zero bytes")
+    # fuse word size (`self.length //= n` / `... // n`) and the constructor guard `len(data) % n`
+    fw, fg = BAD, 0
     pf_init = _fun(_cls(cmd, "CmdProgFuses"), "__init__")
     for n in ast.walk(pf_init) if pf_init is not None else []:
-        if isinstance(n, ast.AugAssign) and isinstance(n.op, ast.FloorDiv) and ast.unparse(n.target) == "self.length":
-            try:
-                fw = int(ast.literal_eval(n.value))
-            except (ValueError, SyntaxError, TypeError):
-                pass
-    d("fuseWordSize", fw, "CmdProgFuses.__init__: self.length //= n")
-    # constructor guard `if len(data) % n [!= 0]: raise SPSDKError` (0 = no guard: partial words are accepted)
-    fg = 0
-    for n in pf_init.body if pf_init is not None else []:
+        if isinstance(n, ast.AugAssign) and isinstance(n.op, ast.FloorDiv) or isinstance(n, ast.BinOp) and isinstance(n.op, ast.FloorDiv):
+            v = ev(eC, n.value if isinstance(n, ast.AugAssign) else n.right, "CmdProgFuses")
+            fw = v if fw == BAD else fw
         if isinstance(n, ast.If) and n.body and isinstance(n.body[0], ast.Raise):
-            t = n.test.left if isinstance(n.test, ast.Compare) and isinstance(n.test.ops[0], ast.NotEq) else n.test
-            if isinstance(t, ast.BinOp) and isinstance(t.op, ast.Mod) and ast.unparse(t.left) == "len(data)":
-                try:
-                    fg = int(ast.literal_eval(t.right))
-                except (ValueError, SyntaxError, TypeError):
-                    fg = BAD
+            for m in ast.walk(n.test):
+                if isinstance(m, ast.BinOp) and isinstance(m.op, ast.Mod) and "len(" in ast.unparse(m.left):
+                    fg = ev(eC, m.right, "CmdProgFuses")
+    d("fuseWordSize", fw, "CmdProgFuses.__init__: length field = len(data) // n")
     d("fuseDataGuard", fg, "CmdProgFuses.__init__: data length must be a multiple of n (0: no guard)")
-    # effective HAS_MEMORY_ID_BLOCK of every concrete load-like class (class attribute resolved through the bases)
-    def eff_attr(cname, attr, depth=0):
-        c = _cls(cmd, cname)
-        if c is None or depth > 6:
-            return None
-        v = class_consts(c).get(attr)
-        if v is not None:
-            return v
-        for b in c.bases:
-            if isinstance(b, ast.Name):
-                r = eff_attr(b.id, attr, depth + 1)
-                if r is not None:
-                    return r
-        return None
     mem = []
     for cname in ("CmdLoad", "CmdLoadCmac", "CmdLoadHashLocking", "CmdProgFuses", "CmdProgIfr"):
-        v = eff_attr(cname, "HAS_MEMORY_ID_BLOCK")
-        if v is not None:
-            mem.append((cname, bool(v)))
+        try:
+            mem.append((cname, bool(eC.cls(cname).value("HAS_MEMORY_ID_BLOCK"))))
+        except NotConst as exc:
+            note(f"{cname}.HAS_MEMORY_ID_BLOCK", exc)
     L.append(f"def hasMemIdBlock : List (String × Bool) := [{', '.join(f'(\"{a}\", {str(b).lower()})' for a, b in mem)}]")
     sec_init = _fun(_cls(cmd, "CmdSectionHeader"), "__init__")
     sec_defaults = {}
     if sec_init is not None:
         args = sec_init.args.args
         for a, dv in zip(args[len(args) - len(sec_init.args.defaults):], sec_init.args.defaults):
-            try:
-                sec_defaults[a.arg] = int(ast.literal_eval(dv))
-            except (ValueError, SyntaxError, TypeError):
-                pass
+            sec_defaults[a.arg] = ev(eC, dv, "CmdSectionHeader")
     d("sectionUid", sec_defaults.get("section_uid", BAD), "CmdSectionHeader default section_uid")
     d("sectionType", sec_defaults.get("section_type", BAD), "CmdSectionHeader default section_type")
 
     # ---- header
-    hc = _cls(img, "SecureBinary31Header")
-    hcc = class_consts(hc)
-    magic = hcc.get("MAGIC", b"")
+    H = "SecureBinary31Header"
+    hc = _cls(img, H)
+    magic = cval(eI, H, "MAGIC", b"", bytes)
     L.append(f"def hdrMagic : Bytes := [{', '.join(f'0x{b:02x}' for b in magic)}]  -- {magic!r}")
-    ver = str(hcc.get("FORMAT_VERSION", f"{BAD}.{BAD}")).split(".")
+    ver = str(cval(eI, H, "FORMAT_VERSION", f"{BAD}.{BAD}", str)).split(".")
     d("hdrVersionMajor", ver[0] if ver[0].isdigit() else BAD)
     d("hdrVersionMinor", ver[1] if len(ver) > 1 and ver[1].isdigit() else BAD)
-    d("descLen", hcc.get("DESCRIPTION_LENGTH", BAD), "SecureBinary31Header.DESCRIPTION_LENGTH")
-    header_size = calcsize(hcc.get("HEADER_FORMAT"))
+    d("descLen", cval(eI, H, "DESCRIPTION_LENGTH"), "SecureBinary31Header.DESCRIPTION_LENGTH")
+    hw = widths_of(fm["fmtHeader"])
+    header_size = sum(hw[1]) if hw else BAD
     d("headerSize", header_size, "calcsize(HEADER_FORMAT)")
-    cc = class_consts(_cls(img, "SecureBinary31Commands"))
-    d("chunkLen", cc.get("DATA_CHUNK_LENGTH", BAD), "SecureBinary31Commands.DATA_CHUNK_LENGTH")
+    d("chunkLen", cval(eI, "SecureBinary31Commands", "DATA_CHUNK_LENGTH"), "SecureBinary31Commands.DATA_CHUNK_LENGTH")
 
-    def prop_fn(cname, pname, lean, params, trf):
-        try:
-            fn = _fun(_cls(img, cname), pname)
-            if fn is None:
-                raise Untr("not found")
-            L.append(f"def {lean} {params} : Nat := {trf(fn)}  -- {cname}.{pname}")
-        except Untr as exc:
-            meta["untranslated"].append(f"{cname}.{pname}: {exc}")
-            L.append(f"def {lean} {params} : Nat := {BAD}  -- untranslatable: {exc}")
+    # functions over the finite set of hash lengths: executed, emitted as if-chains
+    itI = Interp(img, {"get_hash_length": lambda h: h, "get_hash": None}, cls=H)
 
-    def ret_expr(fn, tr):
-        for st in fn.body:
-            if isinstance(st, ast.Return):
-                return tr.tr(st.value)
-        raise Untr("no return")
-
-    hl_tr = IntTr({}, {}, {"get_hash_length": "h"})
-    prop_fn("SecureBinary31Header", "cert_block_offset", "certBlockOffset", "(h : Nat)", lambda fn: ret_expr(fn, hl_tr))
-    prop_fn("SecureBinary31Header", "block_size", "blockSize", "(h : Nat)", lambda fn: ret_expr(fn, hl_tr))
-    prop_fn("SecureBinary31Header", "update", "updTotalLength", "(old h cert : Nat)", lambda fn: translate_update(hc, header_size))
-    # initial value of image_total_length in __init__
-    init_total = BAD
-    hi = _fun(hc, "__init__")
-    for st in hi.body if hi is not None else []:
-        if isinstance(st, ast.Assign) and ast.unparse(st.targets[0]) == "self.image_total_length":
+    def by_hash(pname, lean):
+        fn = _fun(hc, pname)
+        rows = []
+        for h in (32, 48):
             try:
-                init_total = IntTr({}, {"self.HEADER_SIZE": str(header_size)}, {}).tr(st.value)
+                if fn is None:
+                    raise Untr("not found")
+                r = outcome(lambda: itI.run(fn, [types.SimpleNamespace(hash_type=h)]))
+                if r[0] != "ok" or not isinstance(r[1], int):
+                    raise Untr(f"result {r}")
+                rows.append((h, r[1]))
             except Untr as exc:
-                meta["untranslated"].append(f"__init__ image_total_length: {exc}")
-    d("initTotalLength", init_total, "SecureBinary31Header.__init__: self.image_total_length")
-    # image type: `7 if is_nxp_container else 6`
-    nxp, oem = BAD, BAD
-    for st in hi.body if hi is not None else []:
-        if isinstance(st, ast.Assign) and ast.unparse(st.targets[0]) == "self.image_type" and isinstance(st.value, ast.IfExp):
-            try:
-                nxp, oem = int(ast.literal_eval(st.value.body)), int(ast.literal_eval(st.value.orelse))
-            except (ValueError, SyntaxError, TypeError):
-                pass
+                note(f"{H}.{pname}({h})", exc)
+                rows.append((h, BAD))
+        body = " else ".join(f"if h = {h} then {v}" for h, v in rows) + f" else {BAD}"
+        L.append(f"def {lean} (h : Nat) : Nat := {body}  -- {H}.{pname}, executed per hash length")
+
+    by_hash("cert_block_offset", "certBlockOffset")
+    by_hash("block_size", "blockSize")
+    try:
+        L.append(f"def updTotalLength (old h cert : Nat) : Nat := {translate_update(eI, hc)}  -- {H}.update")
+    except Untr as exc:
+        note(f"{H}.update", exc)
+        L.append(f"def updTotalLength (old h cert : Nat) : Nat := {BAD}  -- untranslatable: {exc}")
+    # members set by __init__: image_total_length, image_type (by value of the assigned expression)
+    init_total, nxp, oem = BAD, BAD, BAD
+    hi = _fun(hc, "__init__")
+    for st in ast.walk(hi) if hi is not None else []:
+        tgt = st.targets[0] if isinstance(st, ast.Assign) and len(st.targets) == 1 else st.target if isinstance(st, ast.AnnAssign) else None
+        if tgt is None or getattr(st, "value", None) is None:
+            continue
+        if ast.unparse(tgt) == "self.image_total_length":
+            init_total = ev(eI, st.value, H)
+        if ast.unparse(tgt) == "self.image_type":
+            nxp = ev(eI, st.value, H, {"is_nxp_container": True})
+            oem = ev(eI, st.value, H, {"is_nxp_container": False})
+    d("initTotalLength", init_total, f"{H}.__init__: self.image_total_length")
     d("imageTypeNxp", nxp)
     d("imageTypeOem", oem)
     resets, where = chain_start_resets(img)
     meta["chain_start_reset_at"] = where
     L.append(f"def chainStartHash (old : Bytes) (h : Nat) : Bytes := {'zeros h' if resets else 'old'}"
              f"  -- final_hash when the last block is processed ({'reset at ' + where if resets else 'never reset on the export path: stale value of the previous export'})")
-    # key length per hash: {SHA256: 128, SHA384: 256}; hash per signature length {64: SHA256, 96: SHA384}
-    hlen = {"SHA256": 32, "SHA384": 48, "SHA1": 20, "SHA512": 64}
+    # key length per hash (executed), hash per signature length (the expression assigned in SecureBinary31.__init__, by value)
     kl = []
     g = _fun(_cls(img, "SecureBinary31Commands"), "_get_key_length")
-    for n in ast.walk(g) if g is not None else []:
-        if isinstance(n, ast.Dict):
-            for k, v in zip(n.keys, n.values):
-                if isinstance(k, ast.Attribute) and isinstance(v, ast.Constant):
-                    kl.append((hlen.get(k.attr, BAD), int(v.value)))
+    itC = Interp(img, {"get_hash_length": lambda h: h}, cls="SecureBinary31Commands")
+    for h in (32, 48):
+        try:
+            if g is None:
+                raise Untr("not found")
+            r = outcome(lambda: itC.run(g, [h]))
+            if r[0] == "ok" and isinstance(r[1], int):
+                kl.append((h, r[1]))
+        except Untr as exc:
+            note(f"_get_key_length({h})", exc)
     L.append(f"def keyLenOfHash : List (Nat × Nat) := [{', '.join(f'({a}, {b})' for a, b in kl)}]  -- hash length -> AES key bits")
     sl = []
     si = _fun(_cls(img, "SecureBinary31"), "__init__")
-    for n in ast.walk(si) if si is not None else []:
-        if isinstance(n, ast.Dict) and n.keys and all(isinstance(k, ast.Constant) and isinstance(k.value, int) for k in n.keys):
-            for k, v in zip(n.keys, n.values):
-                if isinstance(v, ast.Attribute):
-                    sl.append((int(k.value), hlen.get(v.attr, BAD)))
+    sig_expr = None
+    for st in ast.walk(si) if si is not None else []:
+        if isinstance(st, (ast.Assign, ast.AnnAssign)) and getattr(st, "value", None) is not None and "signature_length" in ast.unparse(st.value):
+            sig_expr = sig_expr or st.value
+    itS = Interp(img, {"get_hash_length": lambda h: h}, cls="SecureBinary31")
+    for n in (64, 96, 132):
+        try:
+            if sig_expr is None:
+                raise Untr("no expression over signature_length")
+            sp = types.SimpleNamespace(signature_length=n)
+            # `self.signature_provider` / `signature_provider`: both spellings reach the stub; `self.CONST` reaches the class constants
+            expr = ast.parse(ast.unparse(sig_expr).replace("self.signature_provider", "signature_provider"), mode="eval").body
+            r = outcome(lambda: itS.ev(expr, {"signature_provider": sp}))
+            if r[0] == "ok" and isinstance(r[1], int):
+                sl.append((n, r[1]))
+        except Untr as exc:
+            note(f"hash of signature length {n}", exc)
     L.append(f"def hashOfSigLen : List (Nat × Nat) := [{', '.join(f'({a}, {b})' for a, b in sl)}]  -- signature length -> hash length")
 
     # ---- KDF
-    modes = dict(enum_members(_cls(fun, "KeyDerivationMode")))
+    modes = dict(enum_members(eF, "KeyDerivationMode"))
     d("kdfModeKdk", modes.get("KDK", BAD), "KeyDerivationMode.KDK")
     d("kdfModeBlk", modes.get("BLK", BAD), "KeyDerivationMode.BLK")
-    kf = _fun(fun, "_get_key_derivation_data")
+    kdm = types.SimpleNamespace(**{k: v for k, v in modes.items()})
+    kdm_set = frozenset(modes.values())
+
+    class _Modes:
+        """KeyDerivationMode stand-in: attribute access gives the tag, `in` tests membership"""
+        def __getattr__(self, a):
+            return getattr(kdm, a)
+
+        def __contains__(self, x):
+            return x in kdm_set
+
+        def __iter__(self):
+            return iter(sorted(kdm_set))
+
+    itF = Interp(fun, {"KeyDerivationMode": _Modes(), "cmac": lambda key=None, data=None: b"<" + bytes(data) + b">"})
+    kf = fun and itF.funs.get("_get_key_derivation_data")
     params = "(derivation_constant kdk_access_rights mode key_length iteration : Nat)"
-    guards = {}
+    want = ["derivation_constant", "kdk_access_rights", "mode", "key_length", "iteration"]
     try:
         if kf is None:
             raise Untr("not found")
-        bt = BytesTr([a.arg for a in kf.args.args], {f"KeyDerivationMode.{k}": v for k, v in modes.items()})
-        body = bt.run(kf)
-        guards = bt.guards
-        if [a.arg for a in kf.args.args] != ["derivation_constant", "kdk_access_rights", "mode", "key_length", "iteration"]:
+        if sorted(a.arg for a in kf.args.args) != sorted(want):
             raise Untr("parameter list changed")
-        L.append(f"/-- translated from `{FUN}::_get_key_derivation_data` (line {kf.lineno}) -/")
+        body = BytesTr(itF, [a.arg for a in kf.args.args]).run(kf)
+        L.append(f"/-- translated from `{FUN}::_get_key_derivation_data` -/")
         L.append(f"def kdfData {params} : Bytes :=\n  {body}")
         meta["kdfData"] = "translated"
-    except Untr as exc:
-        meta["untranslated"].append(f"_get_key_derivation_data: {exc}")
+    except (Untr, PyRaise, NotConst) as exc:
+        note("_get_key_derivation_data", exc)
         meta["kdfData"] = f"untranslatable: {exc}"
         L.append(f"def kdfData {params} : Bytes := []  -- untranslatable: {exc}")
-    for pname, lean in (("kdk_access_rights", "kdfRights"), ("key_length", "kdfKeyLens")):
-        v = guards.get(pname)
-        L.append(f"def {lean} : List Nat := [{', '.join(map(str, v)) if v else BAD}]  -- accepted values of {pname}")
-    # _derive_key: iterations and the key length that takes a second CMAC
-    dk = _fun(fun, "_derive_key")
-    iters, second_for = [], BAD
-    for n in ast.walk(dk) if dk is not None else []:
-        if isinstance(n, ast.keyword) and n.arg == "iteration":
-            try:
-                iters.append(int(ast.literal_eval(n.value)))
-            except (ValueError, SyntaxError, TypeError):
-                iters.append(BAD)
-        if isinstance(n, ast.If) and isinstance(n.test, ast.Compare) and ast.unparse(n.test.left) == "key_length" \
-                and isinstance(n.test.ops[0], ast.Eq):
-            try:
-                second_for = int(ast.literal_eval(n.test.comparators[0]))
-            except (ValueError, SyntaxError, TypeError):
-                pass
-    L.append(f"def kdfIterations : List Nat := [{', '.join(map(str, iters))}]  -- _derive_key: iteration=… in source order")
-    d("kdfTwoBlockKeyLen", second_for, "_derive_key: key_length that appends a second CMAC block")
+
+    def kdf_data(**kw):
+        return outcome(lambda: itF.run(kf, [], dict(dict(derivation_constant=7, kdk_access_rights=0, mode=modes.get("KDK", 1), key_length=128, iteration=1), **kw)))
+
+    # accepted access rights / key lengths: by execution of the guards
+    rights, klens = [], []
+    try:
+        if kf is None:
+            raise Untr("not found")
+        rights = [r for r in range(0, 9) if kdf_data(kdk_access_rights=r)[0] == "ok"]
+        klens = [k for k in (64, 128, 192, 256, 512) if kdf_data(key_length=k)[0] == "ok"]
+    except Untr as exc:
+        note("_get_key_derivation_data guards", exc)
+    L.append(f"def kdfRights : List Nat := [{', '.join(map(str, rights)) if rights else BAD}]  -- accepted values of kdk_access_rights (of 0..8)")
+    L.append(f"def kdfKeyLens : List Nat := [{', '.join(map(str, klens)) if klens else BAD}]  -- accepted values of key_length (of 64,128,192,256,512)")
+    # _derive_key: which iterations are CMACed, in which order, per key length -- by execution with a tagging CMAC stub
+    dk = itF.funs.get("_derive_key")
+    its = []
+    for k in klens:
+        try:
+            if dk is None:
+                raise Untr("not found")
+            r = outcome(lambda: itF.run(dk, [], dict(key=b"K", derivation_constant=7, kdk_access_rights=0, mode=modes.get("KDK", 1), key_length=k)))
+            if r[0] != "ok" or not isinstance(r[1], bytes):
+                raise Untr(f"result {r[0]}")
+            seq, rest = [], r[1]
+            while rest:
+                for i in range(0, 9):
+                    dd = kdf_data(key_length=k, iteration=i)
+                    tok = b"<" + dd[1] + b">" if dd[0] == "ok" else None
+                    if tok and rest.startswith(tok):
+                        seq.append(i)
+                        rest = rest[len(tok):]
+                        break
+                else:
+                    raise Untr("result is not a concatenation of CMACs over derivation data")
+            its.append((k, seq))
+        except Untr as exc:
+            note(f"_derive_key({k})", exc)
+    L.append(f"def kdfIterationsFor : List (Nat × List Nat) := [{', '.join(f'({k}, [{', '.join(map(str, s))}])' for k, s in its)}]"
+             "  -- key length -> iterations whose CMACs are concatenated (by execution of _derive_key)")
     L += ["", "end SpsdkVerif.Generated.Sb31Consts"]
     emit("Sb31Consts", "\n".join(L) + "\n", meta)
 
